@@ -228,7 +228,7 @@ def raw_sinks(b):
 def run(ctx):
     F = ctx.facts("dbg")
     wrappers = clean_wrappers(F)
-    ctx.floor("R02.1", "clean wrapper types (PushJsonSafeString parameters)", len(wrappers), 3)
+    ctx.floor("R02.1", "clean wrapper types (PushJsonSafeString parameters)", len(wrappers), 2)
     T = Taint(F, wrappers)
     bodies = [b for b in F.all_bodies(CR) if in_scope(b) and not b.path.startswith(CR + "::buf::PrefixedStringBuf::") and
               not b.path.startswith("<" + CR + "::buf::PrefixedStringBuf as") or (in_scope(b) and "PushJsonSafeString" in b.path)]
@@ -279,7 +279,7 @@ def run(ctx):
                 continue
             ctx.ok("R02.1", key, loc(b, c.bb), "clean origins only")
         work = nxt
-    ctx.floor("R02.1", "raw append sites checked", nsinks, 40)
+    ctx.floor("R02.1", "raw append sites checked", nsinks, 25)
     # wrapper payloads are only built in their own constructors, from clean origins
     for w in wrappers:
         n = 0
@@ -334,8 +334,8 @@ def run(ctx):
                         helpers.add(cb.def_)
                     changed = True
     roots = [b for b in eventful if b.def_ not in helpers and "PushJsonSafeString" not in b.path]
-    ctx.floor("R02.2", "bodies with buffer events", len(eventful), 8)
-    ctx.floor("R02.2", "typestate roots", len(roots), 5)
+    ctx.floor("R02.2", "bodies with buffer events", len(eventful), 6)
+    ctx.floor("R02.2", "typestate roots", len(roots), 4)
     cache = {}
     total_states = 0
     for b in roots:
@@ -377,7 +377,7 @@ def run(ctx):
     import rules.c14 as c14
     before = len(ctx.instances)
     c14.run(ctx, only_fields=buffer_field(F), rule_prefix="R02.5")
-    ctx.floor("R02.5", "output buffers checked for reset-before-use", len([i for i in ctx.instances[before:] if i["rule"] == "R02.5" and "clean-at-first-use" in i["instance"]]), 7)
+    ctx.floor("R02.5", "output buffers checked for reset-before-use", len([i for i in ctx.instances[before:] if i["rule"] == "R02.5" and "clean-at-first-use" in i["instance"]]), 5)
 
     # ------------------------------------------------------------------ R02.6 the one string sanitizer has no bypass
     san = [b for b in F.all_bodies(CR) if b.name == "json_string" and b.impl and (b.impl.get("trait") or "").endswith("JsonString") and in_scope(b)]
@@ -512,7 +512,7 @@ def verdict_before_bytes(ctx, F, rule):
         ws = [i for i in range(1, b.arg_count + 1) if is_w(b, i)]
         if ws:
             V[b.def_] = (b, ws)
-    ctx.floor(rule, "bodies with an io::Write parameter", len(V), 5)
+    ctx.floor(rule, "bodies with an io::Write parameter", len(V), 4)
     memo = {}
 
     def verdict_target(b):
